@@ -90,3 +90,13 @@ package hcl
 // verif:func (Range).Ptr
 //@ assigns nothing
 //@ ensures fresh(ret) && ret != nil
+
+// ---- diagnostic content (unit U18): value content never reaches Summary / Detail ----
+// verif:unit U18 props=C19
+// verif:cleanfield hcl.Diagnostic.Summary hcl.Diagnostic.Detail
+// verif:taintscan ops.go
+
+// The attribute name handed to GetAttr is source text (a traversal step), not value content.
+// verif:func GetAttr
+//@ nosafety
+//@ requires cleanName: clean(attrName)
